@@ -421,6 +421,10 @@ func (a *List) M__eq__(other Object) (Object, error) {
 	if !ok {
 		return NotImplemented, nil
 	}
+	if err := compareEnter(a); err != nil {
+		return nil, err
+	}
+	defer compareLeave(a)
 	if len(a.Items) != len(b.Items) {
 		return False, nil
 	}
@@ -441,6 +445,10 @@ func (a *List) M__ne__(other Object) (Object, error) {
 	if !ok {
 		return NotImplemented, nil
 	}
+	if err := compareEnter(a); err != nil {
+		return nil, err
+	}
+	defer compareLeave(a)
 	if len(a.Items) != len(b.Items) {
 		return True, nil
 	}
